@@ -4,6 +4,8 @@
    every block shape, every pixel value, every pair of masks and every odd kernel shape, kh <> kw included. *)
 From Coq Require Import ZArith QArith List Bool.
 From HV Require Import Base.ZRange Base.QSum Grid.Window Grid.WindowProofs Kernel.Fit Kernel.Spec Kernel.FitProofs.
+From HVgen Require Import Formulas.
+From HV Require Import Tie.FormulaTie.
 Open Scope Q_scope.
 
 (* the window is kh rows by kw columns, centred: (u, v) is in it iff |u - i| <= (kh-1)/2 and |v - j| <= (kw-1)/2 *)
@@ -115,3 +117,32 @@ Example C01_example :
   length (L b 1 3 1 1) = 2%nat /\ fst (gain_params (ksums b 1 3 1 1)) = fdiv 10 6 /\
   fst (gain_params (ksums b 3 1 1 1)) = fdiv 21 12.
 Proof. vm_compute. repeat split. Qed.
+
+From Coq Require Import String.
+Import ListNotations.
+Open Scope string_scope.
+Open Scope list_scope.
+Open Scope Q_scope.
+(* ---- the tie to the source: the arithmetic of the CURRENT kernel_model.py, translated expression by expression (gen/Formulas.v,
+        regenerated on every run), is the arithmetic of Kernel.Fit - numerator / denominator of the least-squares gain, the offset through the
+        centroid, the re-estimated gain of in-painted pixels with its keep rule, TSS, both RSS expansions, the gain ratio *)
+Theorem C01_source_arithmetic_is_the_model (S : sums) (m c : Q) :
+  let N := sN S in let X := sX S in let Y := sY S in let XY := sXY S in let XX := sXX S in let YY := sYY S in
+  Formulas.translation_failed = false /\
+  gen_go_num N X Y XY XX YY m c == go_num S /\ gen_go_den N X Y XY XX YY m c == go_den S /\
+  (gen_go_offset_n N X Y XY XX YY m c == sY S - m * sX S /\ gen_go_offset_d N X Y XY XX YY m c == sN S /\ gen_go_offset_where = "mask"%string) /\
+  (gen_go_regain_n N X Y XY XX YY m c == sY S - sN S * c /\ gen_go_regain_d N X Y XY XX YY m c == sX S /\
+   gen_go_regain_where = "r2_mask"%string /\ gen_fill_mask = "~r2_mask & mask"%string /\
+   gen_keep_atoms = ["mask"; "param_ra.array[0] > 0"; "param_ra.array[2] > self._r2_inpaint_thresh"]) /\
+  gen_ss_tot N X Y XY XX YY m c == tss_n S /\ gen_ss_res_go N X Y XY XX YY m c == rss_go S m c /\ gen_ss_res_g N X Y XY XX YY m c == rss_g S m /\
+  (gen_g_gain_n N X Y XY XX YY m c == sY S /\ gen_g_gain_d N X Y XY XX YY m c == sX S).
+Proof. exact (kernel_arithmetic_tied S m c). Qed.
+Theorem C01_source_r2_shape (S : sums) (m c num den res tot d : Q) :
+  (gen_go_gain_n num den res tot == num /\ gen_go_gain_d num den res tot == den /\ gen_go_gain_where = "mask"%string) /\
+  (gen_ss_res_scale (sN S) (sX S) (sY S) (sXY S) (sXX S) (sYY S) m c == sN S /\ gen_r2_n res res res tot == res /\ gen_r2_d res res res tot == tot /\
+   gen_r2_final d == 1 - d).
+Proof. exact (r2_shape_tied S m c num den res tot d). Qed.
+Theorem C01_source_block_normalisation x na nb m : gen_gbo_norm x na nb m == x * na + nb /\ gen_gbo_offset x na nb m == m * nb /\
+  gen_gbo_gain_factor x na nb m == na /\ gen_gbo_offset_before_gain = true.
+Proof. exact (tie_gbo x na nb m). Qed.
+Print Assumptions C01_source_arithmetic_is_the_model.
